@@ -6,7 +6,24 @@ lens, as_list, as_tuple, waiter), encodes what came back and compares it with `=
 the outcomes TLC printed (S2C) or hands the encoded observation to spec/Trace_Lift.tla (C2S).
 """
 import asyncio, warnings
-from harness.enc import tag, untag
+from collections import OrderedDict
+from harness.enc import tag as _tag, untag
+
+MAPS = ('m', 'om')
+
+
+def tag(v):
+    """harness.enc.tag, except that an OrderedDict keeps the order of its keys: ["om", pairs in insertion order]
+    (a plain dict is ["m", pairs in key order]: its == does not see the order)"""
+    if isinstance(v, OrderedDict):
+        return ['om', [[str(k), tag(x)] for k, x in v.items()]]
+    if isinstance(v, dict):
+        return ['m', [[str(k), tag(x)] for k, x in sorted(v.items())]]
+    if isinstance(v, tuple):
+        return ['t', [tag(x) for x in v]]
+    if isinstance(v, list):
+        return ['l', [tag(x) for x in v]]
+    return _tag(v)
 from harness.core import Machinery
 
 
@@ -42,6 +59,8 @@ def build(t, rev=False):
         return tuple(build(x, rev) for x in p)
     if k == 'm':
         return {kk: build(x, rev) for kk, x in (reversed(p) if rev else p)}
+    if k == 'om':
+        return OrderedDict((kk, build(x, rev)) for kk, x in p)
     return untag(t)
 
 
@@ -117,11 +136,11 @@ def norm_obs(x):
 
 
 def n_leaves(t):
-    return sum(n_leaves(c[1] if t[0] == 'm' else c) for c in t[1]) if t[0] in 'ltm' else 1
+    return sum(n_leaves(c[1] if t[0] in MAPS else c) for c in t[1]) if is_cont(t) else 1
 
 
 def is_cont(t):
-    return t[0] in ('l', 't', 'm')
+    return t[0] in ('l', 't', 'm', 'om')
 
 
 def lift_case(c, form, **extra):
@@ -240,6 +259,8 @@ def run_schedule(tree, vals, order, rev=False):
             return tuple(mk(x) for x in p)
         if k == 'm':
             return {kk: mk(x) for kk, x in (reversed(p) if rev else p)}
+        if k == 'om':
+            return OrderedDict((kk, mk(x)) for kk, x in p)
         return untag(t)
 
     def step(n=3):
@@ -252,7 +273,7 @@ def run_schedule(tree, vals, order, rev=False):
         elif t[0] in 'lt':
             for x in t[1]:
                 kinds(x, out)
-        elif t[0] == 'm':
+        elif t[0] in MAPS:
             for _, x in t[1]:
                 kinds(x, out)
         return out
@@ -330,11 +351,13 @@ SEPS = [['s', ' '], ['s', '.'], ['l', [['s', ' '], ['s', '.']]], ['t', [['s', ' 
 def rand_tree(rng, depth, width, leaf, p_leaf=0.3):
     if depth == 0 or rng.random() < p_leaf:
         return leaf()
-    kind = rng.choice('ltm')
+    kind = rng.choice(['l', 't', 'm', 'm', 'om'])
     n = rng.choice([0, 1, 2, 2, 3, 3, width])
-    if kind == 'm':
+    if kind in MAPS:
         keys = sorted(rng.sample(KEYS, min(n, len(KEYS))))
-        return ['m', [[k, rand_tree(rng, depth - 1, width, leaf, p_leaf)] for k in keys]]
+        if kind == 'om':
+            rng.shuffle(keys)                      # an OrderedDict filled in any order
+        return [kind, [[k, rand_tree(rng, depth - 1, width, leaf, p_leaf)] for k in keys]]
     return [kind, [rand_tree(rng, depth - 1, width, leaf, p_leaf) for _ in range(n)]]
 
 
@@ -356,8 +379,8 @@ def relabel(t, leaf, swap=False, prune=None, rng=None):
     k = t[0]
     if swap and k in 'lt':
         k = 'l' if k == 't' else 't'
-    if k == 'm':
-        return ['m', [[kk, relabel(v, leaf, swap, prune, rng)] for kk, v in t[1]]]
+    if k in MAPS:
+        return [k, [[kk, relabel(v, leaf, swap, prune, rng)] for kk, v in t[1]]]
     return [k, [relabel(v, leaf, swap, prune, rng) for v in t[1]]]
 
 
@@ -367,13 +390,13 @@ def perturb(t, rng, leaf):
         return ['l', [leaf(), leaf()]]
     if t[1] and rng.random() < 0.5:
         i = rng.randrange(len(t[1]))
-        if t[0] == 'm':
-            return ['m', [[kk, perturb(v, rng, leaf) if j == i else v] for j, (kk, v) in enumerate(t[1])]]
+        if t[0] in MAPS:
+            return [t[0], [[kk, perturb(v, rng, leaf) if j == i else v] for j, (kk, v) in enumerate(t[1])]]
         return [t[0], [perturb(v, rng, leaf) if j == i else v for j, v in enumerate(t[1])]]
-    if t[0] == 'm':
+    if t[0] in MAPS:
         if t[1] and rng.random() < 0.5:
-            return ['m', t[1][:-1] + [['zz', leaf()]]]          # same number of keys, another key
-        return ['m', t[1] + [['zz', leaf()]]]
+            return [t[0], t[1][:-1] + [['zz', leaf()]]]          # same number of keys, another key
+        return [t[0], t[1] + [['zz', leaf()]]]
     if t[1] and rng.random() < 0.5:
         return [t[0], t[1][:-1]]
     return [t[0], t[1] + [leaf()]]
@@ -385,8 +408,8 @@ def deep_companion(x, rng, leaf):
         n = len(x[1])
         rows = rng.choice([n + 1, n + 2, 1 if n != 1 else 3])
         return [rng.choice('lt'), [[rng.choice('lt'), [leaf() for _ in range(n)]] for _ in range(rows)]]
-    if x[0] == 'm':
-        return ['m', [['p', ['m', [[k, leaf()] for k, _ in x[1]]]], ['q', leaf()]]]
+    if x[0] in MAPS:
+        return ['m', [['p', ['m', sorted([k, leaf()] for k, _ in x[1])]], ['q', leaf()]]]
     return leaf()
 
 
@@ -415,7 +438,7 @@ def with_deps(tree, rng):
                 cor.append(t[1][0])
         elif is_cont(t):
             for c in t[1]:
-                walk(c[1] if t[0] == 'm' else c)
+                walk(c[1] if t[0] in MAPS else c)
     walk(tree)
 
     def put(t):
@@ -423,8 +446,8 @@ def with_deps(tree, rng):
             if t[1][1] == 'coro' and len(cor) > 1 and rng.random() < 0.6:
                 return ['aw', [t[1][0], 'coro', rng.choice([j for j in cor if j != t[1][0]])]]
             return t
-        if t[0] == 'm':
-            return ['m', [[k, put(v)] for k, v in t[1]]]
+        if t[0] in MAPS:
+            return [t[0], [[k, put(v)] for k, v in t[1]]]
         if is_cont(t):
             return [t[0], [put(v) for v in t[1]]]
         return t
